@@ -1,6 +1,7 @@
 import ZV.Model.C12
 import ZV.Proofs.C12
 import ZV.Props.C11
+import ZV.Generated.C12
 /-!
   C12 — `Verifier.Verify` result assembly.
 
@@ -16,14 +17,17 @@ open ZV.C10 ZV.C11
 
 /-! ### declarative predicates -/
 
-/-- every certificate of the chain is valid at `t` (open interval, as `time.Before/After`) -/
-def ValidAt (ch : Chain) (t : Int) : Prop := ∀ c ∈ ch, c.notBefore < t ∧ t < c.notAfter
+/-- every certificate of the chain is valid at the instant `t`: `NotBefore < t < NotAfter` on the time line
+    (`Time.lt`: seconds, then nanoseconds; the interval is open, as `time.Before/After`).  See
+    `validAt_ns` for the reading in nanoseconds and `validAt_wholeSec` / `validAt_subsec`. -/
+def ValidAt (ch : Chain) (t : Time) : Prop :=
+  ∀ c ∈ ch, (Time.ofSec c.notBefore).lt t ∧ t.lt (Time.ofSec c.notAfter)
 
 /-- the validity periods have a common (open) interval: every NotBefore precedes every NotAfter -/
 def EverValid (ch : Chain) : Prop := ∀ c ∈ ch, ∀ d ∈ ch, c.notBefore < d.notAfter
 
-instance (ch : Chain) (t : Int) : Decidable (ValidAt ch t) :=
-  inferInstanceAs (Decidable (∀ c ∈ ch, c.notBefore < t ∧ t < c.notAfter))
+instance (ch : Chain) (t : Time) : Decidable (ValidAt ch t) :=
+  inferInstanceAs (Decidable (∀ c ∈ ch, (Time.ofSec c.notBefore).lt t ∧ t.lt (Time.ofSec c.notAfter)))
 instance (ch : Chain) : Decidable (EverValid ch) :=
   inferInstanceAs (Decidable (∀ c ∈ ch, ∀ d ∈ ch, c.notBefore < d.notAfter))
 
@@ -32,16 +36,50 @@ instance (ch : Chain) : Decidable (EverValid ch) :=
 def relevant (r : Result) : List Chain := if r.expired then r.validAtExpiration else r.current
 
 /-- a chain valid at some instant has a non-empty common validity interval -/
-theorem ValidAt.everValid {ch : Chain} {t : Int} (h : ValidAt ch t) : EverValid ch := by
+theorem ValidAt.everValid {ch : Chain} {t : Time} (h : ValidAt ch t) : EverValid ch := by
   intro c hc d hd
-  have := (h c hc).1
-  have := (h d hd).2
+  have h1 := (ofSec_lt_iff _ _).mp (h c hc).1
+  have h2 := (lt_ofSec_iff _ _).mp (h d hd).2
+  have := t.up_bounds
   omega
+
+/-- at a whole second `s` the chain is valid iff `NotBefore < s < NotAfter` for every certificate -/
+theorem validAt_wholeSec (ch : Chain) (s : Int) :
+    ValidAt ch (Time.ofSec s) ↔ ∀ c ∈ ch, c.notBefore < s ∧ s < c.notAfter := by
+  simp only [ValidAt, ofSec_lt_ofSec]
+
+/-- **sub-second boundaries**: strictly inside the second `s` (`0 < nsec`) the chain is valid iff
+    `NotBefore ≤ s < NotAfter`: valid from 1 ns after NotBefore, valid up to 1 ns before NotAfter,
+    not valid AT either boundary (`validAt_wholeSec`) -/
+theorem validAt_subsec (ch : Chain) (t : Time) (h : 0 < t.nsec) :
+    ValidAt ch t ↔ ∀ c ∈ ch, c.notBefore ≤ t.sec ∧ t.sec < c.notAfter := by
+  simp only [ValidAt, ofSec_lt_iff, lt_ofSec_iff, Time.up, gt_iff_lt, h, if_true]
+  constructor
+  · intro hh c hc
+    have := hh c hc
+    omega
+  · intro hh c hc
+    have := hh c hc
+    omega
+
+/-- **the reading in nanoseconds**: for a well-formed `time.Time` (`nsec < 10^9`) validity is the strict
+    comparison of `sec * 10^9 + nsec` with the certificate's times in nanoseconds -/
+theorem validAt_ns (ch : Chain) (t : Time) (h : t.nsec < 1000000000) :
+    ValidAt ch t ↔ ∀ c ∈ ch, c.notBefore * 1000000000 < t.sec * 1000000000 + t.nsec ∧
+      t.sec * 1000000000 + t.nsec < c.notAfter * 1000000000 := by
+  simp only [ValidAt, ofSec_lt_iff, lt_ofSec_iff, Time.up]
+  constructor
+  · intro hh c hc
+    have := hh c hc
+    split at this <;> omega
+  · intro hh c hc
+    have := hh c hc
+    split <;> omega
 
 /-! ### 1. no panic -/
 
 /-- the Go `panic("valid && !wasValid …")` of `FilterByDate` is unreachable -/
-theorem filterByDate_no_panic (chains : List Chain) (now : Int) : ∃ p, filterByDate chains now = .ok p :=
+theorem filterByDate_no_panic (chains : List Chain) (now : Time) : ∃ p, filterByDate chains now = .ok p :=
   ⟨_, filterByDate_eq chains now⟩
 
 theorem assemble_no_panic (g : Graph) (c : Cert) (opts : Opts) (chains : List Chain) :
@@ -54,7 +92,7 @@ theorem verify_no_panic (V : Ver) (g : Graph) (c : Cert) (opts : Opts) : ∃ r, 
 /-! ### 2. current / expired / never partition the chains -/
 
 /-- `FilterByDate` is exactly three order-preserving filters by the declarative predicates -/
-theorem filterByDate_spec {chains : List Chain} {now : Int} {p : Parts} (h : filterByDate chains now = .ok p) :
+theorem filterByDate_spec {chains : List Chain} {now : Time} {p : Parts} (h : filterByDate chains now = .ok p) :
     p.current = chains.filter (fun ch => decide (ch ≠ [] ∧ ValidAt ch now)) ∧
     p.expired = chains.filter (fun ch => decide (ch ≠ [] ∧ ¬ ValidAt ch now ∧ EverValid ch)) ∧
     p.never = chains.filter (fun ch => decide (ch ≠ [] ∧ ¬ EverValid ch)) := by
@@ -85,7 +123,7 @@ theorem filterByDate_spec {chains : List Chain} {now : Int} {p : Parts} (h : fil
     · rintro ⟨h1, h2⟩
       exact ⟨h1, fun hv => h2 hv.2⟩
 
-theorem partition_classes {chains : List Chain} {now : Int} {p : Parts} (h : filterByDate chains now = .ok p) :
+theorem partition_classes {chains : List Chain} {now : Time} {p : Parts} (h : filterByDate chains now = .ok p) :
     (∀ ch ∈ p.current, ValidAt ch now) ∧
     (∀ ch ∈ p.expired, ¬ ValidAt ch now ∧ EverValid ch) ∧
     (∀ ch ∈ p.never, ¬ EverValid ch) := by
@@ -100,7 +138,7 @@ theorem partition_classes {chains : List Chain} {now : Int} {p : Parts} (h : fil
   · intro ch hch
     exact (mem_neverOf.mp hch).2.2
 
-theorem partition_perm {chains : List Chain} {now : Int} {p : Parts} (h : filterByDate chains now = .ok p) :
+theorem partition_perm {chains : List Chain} {now : Time} {p : Parts} (h : filterByDate chains now = .ok p) :
     (p.current ++ p.expired ++ p.never).Perm (chains.filter (fun ch => !ch.isEmpty)) := by
   rw [filterByDate_eq] at h
   injection h with h
@@ -110,22 +148,22 @@ theorem partition_perm {chains : List Chain} {now : Int} {p : Parts} (h : filter
 theorem partition_of_assemble {g : Graph} {c : Cert} {opts : Opts} {chains : List Chain} {r : Result}
     (h : assemble g c opts chains = .ok r) :
     (r.current ++ r.expiredChains ++ r.never).Perm (chains.filter (fun ch => !ch.isEmpty)) ∧
-    (∀ ch ∈ r.current, ValidAt ch opts.time) ∧
-    (∀ ch ∈ r.expiredChains, ¬ ValidAt ch opts.time ∧ EverValid ch) ∧
+    (∀ ch ∈ r.current, ValidAt ch opts.now) ∧
+    (∀ ch ∈ r.expiredChains, ¬ ValidAt ch opts.now ∧ EverValid ch) ∧
     (∀ ch ∈ r.never, ¬ EverValid ch) := by
   rw [assemble_eq] at h
   injection h with h
   subst h
-  have hp := partition_classes (filterByDate_eq chains opts.time)
-  exact ⟨partition_perm_aux chains opts.time, hp.1, hp.2.1, hp.2.2⟩
+  have hp := partition_classes (filterByDate_eq chains opts.now)
+  exact ⟨partition_perm_aux chains opts.now, hp.1, hp.2.1, hp.2.2⟩
 
 /-- **current, expired and never-valid chains partition the chains the graph walk finds**
     (as multisets; inside each class the walk order is kept, `filterByDate_spec`) -/
 theorem partition_of_walk {V : Ver} {g : Graph} {c : Cert} {opts : Opts} {r : Result}
     (h : verify V g c opts = .ok r) :
     (r.current ++ r.expiredChains ++ r.never).Perm (walkChains V g c) ∧
-    (∀ ch ∈ r.current, ValidAt ch opts.time) ∧
-    (∀ ch ∈ r.expiredChains, ¬ ValidAt ch opts.time ∧ EverValid ch) ∧
+    (∀ ch ∈ r.current, ValidAt ch opts.now) ∧
+    (∀ ch ∈ r.expiredChains, ¬ ValidAt ch opts.now ∧ EverValid ch) ∧
     (∀ ch ∈ r.never, ¬ EverValid ch) := by
   have := partition_of_assemble h
   rw [filter_nonempty_eq _ (walkChains_ne_nil V g c)] at this
@@ -135,7 +173,7 @@ theorem partition_of_walk {V : Ver} {g : Graph} {c : Cert} {opts : Opts} {r : Re
 
 theorem valid_at_exp_of_assemble {g : Graph} {c : Cert} {opts : Opts} {chains : List Chain} {r : Result}
     (h : assemble g c opts chains = .ok r) (ch : Chain) :
-    ch ∈ r.validAtExpiration ↔ ch ∈ chains ∧ ch ≠ [] ∧ ValidAt ch (c.notAfter - 1) := by
+    ch ∈ r.validAtExpiration ↔ ch ∈ chains ∧ ch ≠ [] ∧ ValidAt ch (Time.ofSec (c.notAfter - 1)) := by
   rw [assemble_eq] at h
   injection h with h
   subst h
@@ -151,7 +189,7 @@ theorem valid_at_exp_of_assemble {g : Graph} {c : Cert} {opts : Opts} {chains : 
     certificate's expiry** -/
 theorem valid_at_exp_def {V : Ver} {g : Graph} {c : Cert} {opts : Opts} {r : Result}
     (h : verify V g c opts = .ok r) (ch : Chain) :
-    ch ∈ r.validAtExpiration ↔ ch ∈ walkChains V g c ∧ ValidAt ch (c.notAfter - 1) := by
+    ch ∈ r.validAtExpiration ↔ ch ∈ walkChains V g c ∧ ValidAt ch (Time.ofSec (c.notAfter - 1)) := by
   rw [valid_at_exp_of_assemble h]
   constructor
   · rintro ⟨h1, _, h3⟩
@@ -162,14 +200,15 @@ theorem valid_at_exp_def {V : Ver} {g : Graph} {c : Cert} {opts : Opts} {r : Res
 /-- … with multiplicities -/
 theorem valid_at_exp_perm {V : Ver} {g : Graph} {c : Cert} {opts : Opts} {r : Result}
     (h : verify V g c opts = .ok r) :
-    r.validAtExpiration.Perm ((walkChains V g c).filter (fun ch => decide (ValidAt ch (c.notAfter - 1)))) := by
+    r.validAtExpiration.Perm ((walkChains V g c).filter (fun ch => decide (ValidAt ch (Time.ofSec (c.notAfter - 1))))) := by
   unfold verify at h
   rw [assemble_eq] at h
   injection h with h
   subst h
   show (currentOf _ _).Perm _
   unfold currentOf
-  have hp := (partition_perm_aux (walkChains V g c) opts.time).filter (fun ch => validB ch (c.notAfter - 1))
+  have hp := (partition_perm_aux (walkChains V g c) opts.now).filter
+    (fun ch => validB ch (Time.ofSec (c.notAfter - 1)))
   rw [filter_nonempty_eq _ (walkChains_ne_nil V g c)] at hp
   refine hp.trans (List.Perm.of_eq ?_)
   apply List.filter_congr
@@ -187,7 +226,7 @@ theorem parents_of_assemble {g : Graph} {c : Cert} {opts : Opts} {chains : List 
   subst h
   show parentsOf c opts chains = _
   unfold parentsOf relevant
-  cases timeInValidityPeriod c opts.time <;> rfl
+  cases timeInValidityPeriod c opts.now <;> rfl
 
 /-- **parents are the distinct second certificates of the relevant chains**: no fingerprint
     twice, every parent is the second certificate of a relevant chain, and every second
@@ -205,19 +244,19 @@ theorem parents_def {V : Ver} {g : Graph} {c : Cert} {opts : Opts} {r : Result}
 
 theorem expired_of_assemble {g : Graph} {c : Cert} {opts : Opts} {chains : List Chain} {r : Result}
     (h : assemble g c opts chains = .ok r) :
-    r.expired = true ↔ ¬ (c.notBefore < opts.time ∧ opts.time < c.notAfter) := by
+    r.expired = true ↔ ¬ ((Time.ofSec c.notBefore).lt opts.now ∧ opts.now.lt (Time.ofSec c.notAfter)) := by
   rw [assemble_eq] at h
   injection h with h
   subst h
-  show (!timeInValidityPeriod c opts.time) = true ↔ _
+  show (!timeInValidityPeriod c opts.now) = true ↔ _
   simp only [timeInValidityPeriod, Bool.not_eq_true', ← Bool.not_eq_true, Bool.and_eq_true,
-    decide_eq_true_eq, gt_iff_lt]
+    before_iff_lt, after_iff_lt]
 
 /-- **the expired flag is set exactly when the verification time is outside the certificate's
     own (open) validity interval** -/
 theorem expired_iff {V : Ver} {g : Graph} {c : Cert} {opts : Opts} {r : Result}
     (h : verify V g c opts = .ok r) :
-    r.expired = true ↔ ¬ (c.notBefore < opts.time ∧ opts.time < c.notAfter) :=
+    r.expired = true ↔ ¬ ((Time.ofSec c.notBefore).lt opts.now ∧ opts.now.lt (Time.ofSec c.notAfter)) :=
   expired_of_assemble h
 
 /-! ### 6. certificate type -/
@@ -269,8 +308,10 @@ theorem revocation_of_assemble {g : Graph} {c : Cert} {opts : Opts} {chains : Li
   rfl
 
 /-- **the in-revocation-set flag is set exactly when the supplied OneCRL lists the certificate
-    (by subject+key or by issuer+serial) or the supplied CRLSet lists it under one of its
-    parents (blocked SPKI or issuer-key+serial)** -/
+    (by its subject + its own SubjectPublicKeyInfo bytes, or by issuer+serial) or the supplied CRLSet
+    lists it under one of its parents (blocked SPKI or issuer-SPKI+serial, the parent's own bytes)** —
+    a key id is an SPKI encoding, so this holds for every certificate, whatever encoding its key has
+    (the old rule needed a canonically encoded key: `checkOld_eq_check` in section 12) -/
 theorem revocation_flag_iff {V : Ver} {g : Graph} {c : Cert} {opts : Opts} {r : Result}
     (h : verify V g c opts = .ok r) :
     r.inRevocationSet = true ↔
@@ -300,9 +341,9 @@ def G : Graph :=
               { cert := L, issuer := some (1, 1), child := (2, 2), root := false }],
     missing := [] }
 /-- in validity, name `h5.test`, a OneCRL that lists (issuer 1, serial 7) -/
-def o1 : Opts := { time := 45, name := .exact 5, oneCRL := some { issuerSerial := [(1, 7)], blocked := [] }, crlSet := none }
+def o1 : Opts := { time := Time.ofSec 45, name := .exact 5, oneCRL := some { issuerSerial := [(1, 7)], blocked := [] }, crlSet := none }
 /-- after expiry, no name, a CRLSet that blocks the SPKI of the parent -/
-def o2 : Opts := { time := 70, name := .none, oneCRL := none, crlSet := some { issuerSerial := [], blockedSPKIs := [1] } }
+def o2 : Opts := { time := Time.ofSec 70, name := .none, oneCRL := none, crlSet := some { issuerSerial := [], blockedSPKIs := [1] } }
 end Ex
 open Ex
 
@@ -313,7 +354,7 @@ example : walkChains V G L = [[L, R], [L, R2], [L, R3]] := by decide
 
 /-- `filterByDate … = .ok p` (hypothesis of `filterByDate_spec`, `partition_classes`, `partition_perm`),
     with an empty chain that is skipped -/
-example : filterByDate [[L, R], [], [L, R2], [L, R3], [L]] 45 =
+example : filterByDate [[L, R], [], [L, R2], [L, R3], [L]] (Time.ofSec 45) =
     .ok { current := [[L, R], [L]], expired := [[L, R2]], never := [[L, R3]] } := by decide
 
 /-- `assemble … = .ok r` (hypothesis of the `…_of_assemble` theorems); the OneCRL lists the certificate -/
@@ -342,7 +383,8 @@ example : (verify V G L { o1 with oneCRL := some { issuerSerial := [(1, 8)], blo
 /-- a root certificate gets type `root` -/
 example : (verify V G R o1).map (·.ctype) = .ok .root ∧ isRoot G R = true := by decide
 
-example : ValidAt [L, R] 45 ∧ ¬ ValidAt [L, R2] 45 ∧ EverValid [L, R2] ∧ ¬ EverValid [L, R3] := by decide
+example : ValidAt [L, R] (Time.ofSec 45) ∧ ¬ ValidAt [L, R2] (Time.ofSec 45) ∧ EverValid [L, R2] ∧
+    ¬ EverValid [L, R3] := by decide
 
 
 /-! ### 9. the parents all sit on the issuer node of the start edge (needs the graph invariant of C10) -/
@@ -408,5 +450,250 @@ example : ∀ p ∈ [Ex.R], (startEdge Ex.V Ex.G Ex.L).issuer = some p.sk :=
     (r := { expired := true, current := [], expiredChains := [[L, R], [L, R2]], never := [[L, R3]],
             validAtExpiration := [[L, R]], parents := [R], nameError := none,
             inRevocationSet := true, ctype := .leaf, parentSK := some (1, 1) }) (by decide)
+
+
+/-! ### 10. the verification time in force: zero `VerifyTime`, the clock -/
+
+/-- `IsZero()` holds for exactly one instant (January 1, year 1, 00:00:00.000000000 UTC) — also when it
+    was built with `time.Unix`, not only for `time.Time{}` -/
+theorem isZero_iff (t : Time) : t.isZero = true ↔ t = { sec := zeroSec, nsec := 0 } := by
+  cases t with
+  | mk s n => simp [Time.isZero]
+
+/-- a non-zero `VerifyTime` is used as it is -/
+theorem now_of_nonzero {opts : Opts} (h : opts.time.isZero = false) : opts.now = opts.time := by
+  simp [Opts.now, h]
+
+/-- a zero `VerifyTime` is replaced by the clock reading -/
+theorem now_of_zero {opts : Opts} (h : opts.time.isZero = true) : opts.now = opts.clock := by
+  simp [Opts.now, h]
+
+/-- **the clock is consulted only for a zero `VerifyTime`**: with any other `VerifyTime` the whole result
+    is the same whatever `time.Now()` returns -/
+theorem clock_irrelevant (V : Ver) (g : Graph) (c : Cert) (opts : Opts) (clk : Time)
+    (h : opts.time.isZero = false) :
+    verify V g c { opts with clock := clk } = verify V g c opts := by
+  simp [verify, assemble, Opts.now, h, revocationFlag, ocspDue, crlDue, providerOf]
+
+/-- **a zero `VerifyTime` means "now"**: the result is the one for `VerifyTime = clock reading` -/
+theorem zero_time_is_clock (V : Ver) (g : Graph) (c : Cert) (opts : Opts)
+    (hz : opts.time.isZero = true) (hc : opts.clock.isZero = false) :
+    verify V g c opts = verify V g c { opts with time := opts.clock } := by
+  simp [verify, assemble, Opts.now, hz, hc, revocationFlag, ocspDue, crlDue, providerOf]
+
+/-- every theorem above speaks about `opts.now`; with a zero `VerifyTime` that is the clock: e.g. the
+    expired flag is decided by the clock reading -/
+theorem expired_zero_time {V : Ver} {g : Graph} {c : Cert} {opts : Opts} {r : Result}
+    (h : verify V g c opts = .ok r) (hz : opts.time.isZero = true) :
+    r.expired = true ↔ ¬ ((Time.ofSec c.notBefore).lt opts.clock ∧ opts.clock.lt (Time.ofSec c.notAfter)) := by
+  rw [expired_iff h, now_of_zero hz]
+
+/-! ### 11. the revocation switches and the provider's answers -/
+
+theorem rev_of_assemble {g : Graph} {c : Cert} {opts : Opts} {chains : List Chain} {r : Result}
+    (h : assemble g c opts chains = .ok r) :
+    r.ocspCall = (if ocspDue opts then some r.parents.head? else none) ∧
+    r.ocsp = (if ocspDue opts then (providerOf opts).ocsp else ProvAns.zero) ∧
+    r.crlCall = crlDue opts ∧
+    r.crl = (if crlDue opts then (providerOf opts).crl else ProvAns.zero) := by
+  rw [assemble_eq] at h
+  injection h with h
+  subst h
+  exact ⟨rfl, rfl, rfl, rfl⟩
+
+/-- **which check runs for which flag**: `CheckOCSP` is called (once) exactly when `ShouldCheckOCSP` is
+    set and the certificate has an OCSP URL; it is handed the first parent, or nil when there are no
+    parents; the three OCSP fields of the result are the provider's three return values unchanged
+    (also `isRevoked = true` together with an error, or an error together with revocation info), and
+    keep their zero values when the check does not run. -/
+theorem ocsp_switch {V : Ver} {g : Graph} {c : Cert} {opts : Opts} {r : Result}
+    (h : verify V g c opts = .ok r) :
+    (r.ocspCall ≠ none ↔ opts.shouldOCSP = true ∧ 0 < opts.nOCSP) ∧
+    (∀ i, r.ocspCall = some i → (i = none ↔ r.parents = []) ∧ ∀ p, i = some p → p ∈ r.parents) ∧
+    (r.ocspCall = none → r.ocsp = ProvAns.zero) ∧
+    (r.ocspCall ≠ none → ∀ p, opts.provider = some p → r.ocsp = p.ocsp) ∧
+    (r.ocspCall ≠ none → opts.provider = none → r.ocsp = ProvAns.offline) := by
+  obtain ⟨h1, h2, _, _⟩ := rev_of_assemble h
+  have hd : ocspDue opts = true ↔ opts.shouldOCSP = true ∧ 0 < opts.nOCSP := by
+    simp [ocspDue]
+  cases hdue : ocspDue opts
+  · rw [hdue] at h1 h2 hd
+    simp only [Bool.false_eq_true, if_false] at h1 h2
+    refine ⟨?_, ?_, fun _ => h2, ?_, ?_⟩
+    · rw [h1]; simp only [ne_eq, not_true_eq_false, false_iff]; exact fun hh => by simpa using hd.mpr hh
+    · intro i hi; rw [h1] at hi; cases hi
+    · intro hh; exact absurd h1 hh
+    · intro hh; exact absurd h1 hh
+  · rw [hdue] at h1 h2 hd
+    simp only [if_true] at h1 h2
+    refine ⟨?_, ?_, ?_, ?_, ?_⟩
+    · rw [h1]; simp only [ne_eq, reduceCtorEq, not_false_eq_true, true_iff]; exact hd.mp rfl
+    · intro i hi
+      rw [h1] at hi
+      injection hi with hi
+      subst hi
+      cases hp : r.parents with
+      | nil => simp
+      | cons a t => simp
+    · intro hh; rw [h1] at hh; cases hh
+    · intro _ p hp; rw [h2]; simp [providerOf, hp]
+    · intro _ hp; rw [h2]; simp [providerOf, hp]
+
+/-- `CheckCRL` is called (with a nil list) exactly when `ShouldCheckCRL` is set and the certificate has a
+    CRL distribution point; its three return values are copied unchanged -/
+theorem crl_switch {V : Ver} {g : Graph} {c : Cert} {opts : Opts} {r : Result}
+    (h : verify V g c opts = .ok r) :
+    (r.crlCall = true ↔ opts.shouldCRL = true ∧ 0 < opts.nCDP) ∧
+    (r.crlCall = false → r.crl = ProvAns.zero) ∧
+    (r.crlCall = true → ∀ p, opts.provider = some p → r.crl = p.crl) ∧
+    (r.crlCall = true → opts.provider = none → r.crl = ProvAns.offline) := by
+  obtain ⟨_, _, h3, h4⟩ := rev_of_assemble h
+  have hd : crlDue opts = true ↔ opts.shouldCRL = true ∧ 0 < opts.nCDP := by
+    simp [crlDue]
+  rw [h3, h4]
+  refine ⟨hd, ?_, ?_, ?_⟩
+  · intro hh; simp [hh]
+  · intro hh p hp; simp [hh, providerOf, hp]
+  · intro hh hp; simp [hh, providerOf, hp]
+
+/-- the result without the six OCSP / CRL fields -/
+def Result.core (r : Result) : Result :=
+  { r with ocspCall := none, ocsp := ProvAns.zero, crlCall := false, crl := ProvAns.zero }
+
+/-- **what an error / unknown / revoked answer of a provider does to the verdict: nothing.**  The chains,
+    parents, expired flag, type, name error and in-revocation-set flag are the same for every setting of
+    the two switches, every provider (or none), every answer and every number of URLs. -/
+theorem provider_frame (V : Ver) (g : Graph) (c : Cert) (opts : Opts) (so sc : Bool) (p : Option Provider)
+    (no nc : Nat) :
+    (verify V g c { opts with shouldOCSP := so, shouldCRL := sc, provider := p, nOCSP := no, nCDP := nc }).map
+      Result.core = (verify V g c opts).map Result.core := by
+  unfold verify
+  rw [assemble_eq, assemble_eq]
+  rfl
+
+/-! ### 12. the two encodings of one key
+
+  Before the fix 8a7eec0 `OneCRL.Check` hashed `MarshalPKIXPublicKey(cert.PublicKey)` instead of the
+  certificate's own SubjectPublicKeyInfo bytes (finding F-C12-onecrl-remarshalled-key).  The old rule is
+  kept here as `OneCRL.checkOld` (a specification of the OLD code, not tied by T2 any more) with the
+  theorems that made it a defect; the repaired rule is `OneCRL.check` of the model. -/
+
+/-- the key id whose SubjectPublicKeyInfo bytes are `MarshalPKIXPublicKey(cert.PublicKey)`: ids
+    `100+2j+1` (RSA key j, algorithm parameters absent) re-marshal to the bytes of id `100+2j` -/
+def canonKey (k : Nat) : Nat := if k ≥ 100 ∧ (k - 100) % 2 = 1 then k - 1 else k
+
+/-- `OneCRL.Check(cert) != nil` as it was before 8a7eec0 -/
+def OneCRL.checkOld (o : OneCRL) (c : Cert) : Bool :=
+  o.blocked.any (fun b => b.1 == c.subj && b.2 == canonKey c.key) ||
+  o.issuerSerial.any (fun e => e.1 == c.iss && e.2 == c.serial)
+
+theorem canonKey_idem (k : Nat) : canonKey (canonKey k) = canonKey k := by
+  by_cases h : k ≥ 100 ∧ (k - 100) % 2 = 1
+  · have h1 : canonKey k = k - 1 := by simp [canonKey, h]
+    have h2 : ¬ ((k - 1) ≥ 100 ∧ (k - 1 - 100) % 2 = 1) := by omega
+    rw [h1]; simp [canonKey, h2]
+  · have h1 : canonKey k = k := by simp [canonKey, h]
+    rw [h1, h1]
+
+/-- ids below 100 (ECDSA keys, one encoding) and even ids from 100 are canonical; `100+2j+1` is `100+2j` -/
+theorem canonKey_values (j : Nat) :
+    canonKey (100 + 2 * j + 1) = 100 + 2 * j ∧ canonKey (100 + 2 * j) = 100 + 2 * j ∧
+    (j < 100 → canonKey j = j) := by
+  unfold canonKey
+  refine ⟨?_, ?_, ?_⟩
+  · split <;> omega
+  · split <;> omega
+  · intro h; split <;> omega
+
+/-- **the repaired rule is exact**: a single `Blocked` entry (s, k) flags precisely the certificates with
+    subject `s` whose own SubjectPublicKeyInfo is `k` — twins are told apart -/
+theorem oneCRL_entry_exact (s k : Nat) (c : Cert) :
+    ({ issuerSerial := [], blocked := [(s, k)] } : OneCRL).check c = true ↔ c.subj = s ∧ c.key = k := by
+  simp only [OneCRL.check, List.any_cons, List.any_nil, Bool.or_false, Bool.and_eq_true, beq_iff_eq]
+  constructor
+  · rintro ⟨h1, h2⟩; exact ⟨h1.symm, h2.symm⟩
+  · rintro ⟨h1, h2⟩; exact ⟨h1.symm, h2.symm⟩
+
+/-- old and repaired rule agree on every certificate that carries its key in the canonical encoding -/
+theorem checkOld_eq_check (o : OneCRL) (c : Cert) (hk : canonKey c.key = c.key) : o.checkOld c = o.check c := by
+  simp only [OneCRL.checkOld, OneCRL.check, hk]
+
+/-- (old rule) OneCRL could not tell two certificates apart that differ only in the encoding of their key -/
+theorem oneCRL_twins_old (o : OneCRL) (c c' : Cert) (hs : c.subj = c'.subj) (hk : canonKey c.key = canonKey c'.key)
+    (hi : c.iss = c'.iss) (hn : c.serial = c'.serial) : o.checkOld c = o.checkOld c' := by
+  simp only [OneCRL.checkOld, hs, hk, hi, hn]
+
+/-- (old rule) a `Blocked` entry computed from a non-canonical SubjectPublicKeyInfo never matched any
+    certificate — in particular not the certificate it was computed from -/
+theorem oneCRL_alt_entry_dead_old (s k : Nat) (hk : canonKey k ≠ k) (c : Cert) :
+    ({ issuerSerial := [], blocked := [(s, k)] } : OneCRL).checkOld c = false := by
+  simp only [OneCRL.checkOld, List.any_cons, List.any_nil, Bool.or_false, Bool.and_eq_false_imp, beq_iff_eq]
+  intro _
+  rw [beq_eq_false_iff_ne]
+  intro h
+  apply hk
+  rw [h, canonKey_idem]
+
+namespace Ex
+/-- `L` with its RSA key in the encoding without NULL parameters -/
+def La : Cert := { L with key := 101 }
+def oOwn : Opts := { o1 with oneCRL := some { issuerSerial := [], blocked := [(2, 101)] } }
+def oCanon : Opts := { o1 with oneCRL := some { issuerSerial := [], blocked := [(2, 100)] } }
+/-- sub-second instants around `L`'s NotAfter = 50 -/
+def tBefore : Time := { sec := 49, nsec := 999999999 }
+def stubP : Provider :=
+  { ocsp := { revoked := true, info := none, err := true }, crl := { revoked := false, info := some 3, err := false } }
+def oStub : Opts := { o1 with shouldOCSP := true, shouldCRL := true, nOCSP := 1, nCDP := 2, provider := some stubP }
+end Ex
+
+/-- the twin case on the repaired code: the OneCRL holds (subject of `La`, SHA-256 of `La`'s own
+    SubjectPublicKeyInfo) and the flag is set … -/
+example : (verify Ex.V Ex.G Ex.La Ex.oOwn).map (·.inRevocationSet) = .ok true := by decide
+/-- … an entry with the hash of the OTHER encoding of the key does not list `La` and does not set it -/
+example : (verify Ex.V Ex.G Ex.La Ex.oCanon).map (·.inRevocationSet) = .ok false := by decide
+/-- **the former finding** (counter-example to "set exactly when the supplied OneCRL lists the certificate"
+    under the old rule): own-encoding entry missed, other-encoding entry hit -/
+example : (OneCRL.mk [] [(2, 101)]).checkOld Ex.La = false ∧ (OneCRL.mk [] [(2, 100)]).checkOld Ex.La = true := by
+  decide
+/-- hypotheses of `checkOld_eq_check` / `oneCRL_alt_entry_dead_old` / `oneCRL_twins_old` -/
+example : canonKey Ex.La.key ≠ Ex.La.key ∧ canonKey Ex.L.key = Ex.L.key ∧
+    canonKey Ex.La.key = canonKey ({ Ex.La with key := 100 } : Cert).key := by decide
+
+/-- hypotheses of `clock_irrelevant` / `zero_time_is_clock` / `expired_zero_time` -/
+example : Ex.o1.time.isZero = false ∧
+    ({ Ex.o1 with time := { sec := zeroSec, nsec := 0 }, clock := Time.ofSec 45 } : Opts).time.isZero = true ∧
+    (Time.ofSec 45).isZero = false := by decide
+/-- with `VerifyTime` zero and the clock at 45 the result is that of `VerifyTime = 45` -/
+example : verify Ex.V Ex.G Ex.L { Ex.o1 with time := { sec := zeroSec, nsec := 0 }, clock := Time.ofSec 45 } =
+    verify Ex.V Ex.G Ex.L Ex.o1 := by decide
+/-- 1 ns before NotAfter the certificate is still valid, at NotAfter it is not (`validAt_subsec`, `validAt_wholeSec`) -/
+example : 0 < Ex.tBefore.nsec ∧ Ex.tBefore.nsec < 1000000000 ∧ ValidAt [Ex.L, Ex.R] Ex.tBefore ∧
+    ¬ ValidAt [Ex.L, Ex.R] (Time.ofSec 50) := by decide
+/-- hypothesis of `ocsp_switch` / `crl_switch`: both checks run, the answers are copied (revoked with an error too) -/
+example : (verify Ex.V Ex.G Ex.L Ex.oStub).map (fun r => (r.ocspCall, r.ocsp, r.crlCall, r.crl)) =
+    .ok (some (some Ex.R), { revoked := true, info := none, err := true }, true,
+         { revoked := false, info := some 3, err := false }) := by decide
+
+
+/-! ### 13. T1: constants and tables taken from the source tree on every run (`ZV.Generated.C12`) -/
+
+/-- the model's `c.notAfter - 1` is the source's `c.NotAfter.Add(-time.Second)`: the duration expression in
+    verifier/verifier.go evaluates to minus one second -/
+theorem expiration_offset : Gen.expirationOffsetNs = -1 * Gen.nsPerSec := by decide
+
+/-- the model's `zeroSec` is `time.Time{}.Unix()` relative to the harness epoch -/
+theorem zeroSec_def : zeroSec = Gen.zeroUnix - Gen.harnessEpoch := by decide
+
+/-- `IsZero()` holds for `time.Unix(zeroUnix, 0)` but not 1 ns or 1 s later, as `Time.isZero` says -/
+theorem zero_probe :
+    Gen.zeroProbe = [Time.isZero { sec := zeroSec, nsec := 0 }, Time.isZero { sec := zeroSec, nsec := 1 },
+      Time.isZero { sec := zeroSec + 1, nsec := 0 }] := by decide
+
+/-- the four certificate types have distinct values and distinct JSON names, the zero value is "unknown", and the
+    names are the ones the driver prints -/
+theorem certificateTypes_table :
+    (Gen.certificateTypes.map (·.1)).Nodup ∧ (Gen.certificateTypes.map (·.2)).Nodup ∧
+    Gen.certificateTypes.head? = some (0, "unknown") ∧
+    Gen.certificateTypes.map (·.2) = ["unknown", "leaf", "intermediate", "root"] := by decide
 
 end ZV.C12
